@@ -36,7 +36,7 @@ theorem recvData_tail_inv {full : Bool} {g : Ghost} {s : Streams} (h : Inv full 
        if payload.isEmpty && !eos then (s, (Except.ok () : Except PErr Unit))
        else
          let s := s.modStream id fun st => { st with pendingRecv := st.pendingRecv ++ [.data payload (!eos)] }
-         (s.modStreamW id Stream.notifyRecv, .ok ())).1 := by
+         ((s.modStreamW id Stream.notifyRecv).notifyPushIfRecvEnded id, .ok ())).1 := by
   inv_auto
 
 /-- what `recv_data` guarantees about the pair it returns: the invariant, with `sz` octets of slack
@@ -131,7 +131,7 @@ theorem recvRecvData_post {full : Bool} {g : Ghost} {s : Streams} (h : Inv full 
     have h4 := (releaseConnectionCapacity_inv her sz false hcI3).1
     have : (sz : Int) - sz = 0 := by omega
     rw [this] at h4
-    exact DataPost.of_inv h4 notReset_ok
+    exact DataPost.of_inv (h4.of_ext (notifyPushIfRecvEnded_ext _ id)) notReset_ok
   -- charge the stream
   cases hsd : (s3.stream id).recvFlow.sendData sz with
   | mk fl r =>
